@@ -62,6 +62,12 @@ AddBE(radix, c, n) ==
             IN  << v \div radix, [acc[2] EXCEPT ![idx] = v % radix] >>
     IN  FoldLeft(step, <<n, c>>, [i \in 1..Len(c) |-> i])[2]
 
+(* increment confined to the low w digits, the digits above stay as they are  *)
+(* (w = Len(c) is AddBE; the Arduino CTR wrapper lets the caller choose w)    *)
+AddBEW(radix, c, n, w) ==
+    IF w >= Len(c) THEN AddBE(radix, c, n)
+    ELSE SubSeq(c, 1, Len(c) - w) \o AddBE(radix, SubSeq(c, Len(c) - w + 1, Len(c)), n)
+
 ----------------------------------------------------------------------------
 (* CTR stream position (C05).  A position is <<c, j>>: the next keystream   *)
 (* byte is byte j (0-based) of E(c); j = 0 means block c is not started.    *)
@@ -76,6 +82,12 @@ PosRekey(radix, pos) ==
 
 PosAdvance(radix, bs, pos, n) ==
     << AddBE(radix, pos[1], (pos[2] + n) \div bs), (pos[2] + n) % bs >>
+
+(* the same with a counter of w digits (the rest of the block is a fixed prefix) *)
+PosRekeyW(radix, pos, w) ==
+    IF pos[2] = 0 THEN pos ELSE << AddBEW(radix, pos[1], 1, w), 0 >>
+PosAdvanceW(radix, bs, pos, n, w) ==
+    << AddBEW(radix, pos[1], (pos[2] + n) \div bs, w), (pos[2] + n) % bs >>
 
 (* the counter block whose encryption provides stream byte i (0-based) of a *)
 (* request starting at pos, and the byte index inside it                    *)
